@@ -2,6 +2,47 @@
 from . import upgrade
 
 TABLE = {"C12": upgrade.c12, "C13": upgrade.c13, "C15": upgrade.c15, "C17": upgrade.c17}
+NOTE = ("Trusted: TLC, the bounds of the MC configs, the driver's fact reporting (request lines as handed to Upgrade, "
+        "return values, ResponseWriter status/headers, operations on the hijacked connection, raw bytes written), "
+        "harness-side SHA-1/base64 for the accept digest, the scripted transports. TLC itself parses the request's "
+        "token lists, the key, the extension offers and the raw 101 bytes (WSTokens/WSUpgrade).")
+
+INFO = {
+    "C12": dict(
+        text="Exhaustive TLC model check of the bounded server-handshake model (WSUpgradeMC over MC_C12: decision product "
+             "method x Connection x Upgrade x Version x Key x (CheckOrigin, Origin) x app extension header; negotiation: offers x "
+             "Subprotocols x responseHeader incl. control bytes x extension offers x EnableCompression) with C12 as invariants and "
+             "the refinement 'strict model within envelope'; every abstract program is executed on the real Upgrader.Upgrade and the "
+             "recorded outcome (return values, ResponseWriter, hijacked-connection operations, raw 101 bytes) is validated by TLC "
+             "against WSUpgrade!OutcomeAllowed.",
+        note=NOTE + " Not asserted: status of multiply-defective requests, outcome for token lists that are not well-formed 1#token, "
+             "announcement for malformed extension offers, subprotocol membership when Upgrader.Subprotocols is nil.",
+        technique="TLA+ model (WSTokens, WSOrigin, WSUpgrade) checked with TLC; TLC-generated programs replayed on the real code; trace validation with TLC"),
+    "C13": dict(
+        text="Exhaustive TLC enumeration (MC_C13) of (Host, Origin) pairs over the adversarial alphabet a A k K U+212A s S U+017F . - 1 : "
+             "(all pairs at edit distance <= 1, all Unicode-fold variants, all short pairs) x 8 origin shapes x ports x embeddings and IP "
+             "literals, with C13 restated as invariants independent of the folding operator; each pair is embedded into a valid handshake, "
+             "executed on the real Upgrader without CheckOrigin, and the outcome 101/403 is validated by TLC against WSOrigin!Expected.",
+        note=NOTE + " Domain: Host values are valid uri-host[:port]; origin strings are assembled from (shape, host text) by WSOrigin!OriginString.",
+        technique="TLA+ model (WSOrigin, WSUpgrade) checked with TLC; TLC-generated programs replayed on the real code; trace validation with TLC"),
+    "C15": dict(
+        text="Exhaustive TLC model check of the negotiation model (WSNegotiateMC over MC_C15: settings^2 x toggle scripts on a real "
+             "Dialer/Upgrader pair, hand-made offers against the Upgrader, scripted replies against the Dialer) with CompressionAgreement and "
+             "UsedOnlyIfAnnouncedWithBothParams as invariants; every program is executed on the real library and the recorded observations "
+             "(extension header bytes, RSV1 of written messages, decodability, acceptance of compressed input) are validated by TLC against "
+             "the WSNegotiate envelope.",
+        note="Trusted: TLC, MC bounds, the in-memory pipe and its wire tap, the independent frame codec and DEFLATE writer/inflater of the harness.",
+        technique="TLA+ model (WSTokens, WSNegotiate) checked with TLC; TLC-generated programs replayed on the real code; trace validation with TLC"),
+    "C17": dict(
+        text="Exhaustive TLC model check of the boundary model (WSBoundaryMC over MC_C17: frame streams x EVERY split offset x "
+             "ReadBufferSize x hijacked reader size; client: every split of '101 + frames' x Dialer.ReadBufferSize) with "
+             "NoLossNoReorder/NoOverRead as invariants (verifies the reader-selection rule); every program is executed on the real "
+             "Upgrader/Dialer and the messages delivered by the returned Conn are validated by TLC against the reader model (WSReaderTrace): "
+             "they must be the messages of the glued stream, complete and in order. Coverage floor: each of reuse/wrap/fresh/client >= 1.",
+        note="Trusted: TLC, MC bounds, the fake Hijacker's pre-loading of the bufio.Reader, the independent frame codec, payload identity.",
+        technique="TLA+ model (WSUpgrade!ReaderSelection, WSBoundaryMC, WSReader) checked with TLC; TLC-generated programs replayed on the real code; trace validation with TLC"),
+}
+
 TRACE_SPEC = {"upgrade": upgrade.TRACE, "boundary": upgrade.READER_TRACE, "negotiate": upgrade.NEG_TRACE}
 
 
